@@ -5,7 +5,7 @@ WT=$1; D=$2; NAME=$3
 cd $WT || exit 2
 git checkout -q -- . ; rm -f tests/demo_confirm.rs
 git apply $D/patch.diff || { echo "{\"name\":\"$NAME\",\"error\":\"patch does not apply\"}" > $D/confirm.json; exit 1; }
-SUITE=$(cargo test --offline --workspace --no-fail-fast 2>&1 | grep -E "^test result|FAILED|^test .* FAILED" )
+SUITE=$(timeout 1500 cargo test --offline --workspace --no-fail-fast --lib --tests 2>&1 | grep -E "^test result|FAILED|^test .* FAILED" )
 SUITE_FAILS=$(echo "$SUITE" | grep -c "FAILED")
 SUITE_OK=$(echo "$SUITE" | grep -c "test result: ok")
 cp $D/demo.rs tests/demo_confirm.rs
@@ -18,6 +18,6 @@ import sys, json
 name, ok, fails, w, wo = sys.argv[1:6]
 print(json.dumps({"name": name, "suite_ok_lines_with_patch": int(ok), "suite_failed_lines_with_patch": int(fails),
   "demo_with_patch": w, "demo_without_patch": wo,
-  "confirmed": int(fails) == 0 and int(ok) > 20 and ("FAILED" in w or "failed" in w and "0 failed" not in w) and "ok" in wo and "0 failed" in wo}))
+  "confirmed": int(fails) == 0 and int(ok) >= 20 and ("FAILED" in w or "failed" in w and "0 failed" not in w) and "ok" in wo and "0 failed" in wo}))
 PY
 cat $D/confirm.json
